@@ -82,6 +82,17 @@ step(ByteBuffer *b, unsigned char *mem, struct model *m, int op, size_t n, const
     }
     case OP_CONSUME: {
         unsigned char *d = vh_arena(n);
+        /* a request that must be refused never needs its destination: now and then there is none (NULL), or
+         * one that must not be touched (poisoned) */
+        if (n > m->used - m->offset) {
+            unsigned sel = (unsigned)(n + m->offset + 2 * m->used) % 3u;
+            if (sel == 0) {
+                d = NULL;
+                VH_COUNT("consume that must be refused, without a destination");
+            } else if (sel == 1) {
+                vh_poison(d, n);
+            }
+        }
         int rc = byte_buffer_consume(b, d, n);
         if (n > m->used - m->offset) {
             VH_COUNT("consume refused (too few unread)");
@@ -101,8 +112,15 @@ step(ByteBuffer *b, unsigned char *mem, struct model *m, int op, size_t n, const
     }
     case OP_ATMOST: {
         unsigned char *d = vh_arena(n);
-        ssize_t rc = byte_buffer_consume_at_most(b, d, n);
         size_t rest = m->used - m->offset;
+        if (rest == 0) {
+            unsigned sel = (unsigned)(n + m->offset) % 3u;
+            if (sel == 0)
+                d = NULL;
+            else if (sel == 1)
+                vh_poison(d, n);
+        }
+        ssize_t rc = byte_buffer_consume_at_most(b, d, n);
         if (rest == 0) {
             VH_COUNT("consume_at_most refused (nothing unread)");
             if (rc >= 0)
@@ -448,7 +466,8 @@ harness_run(void)
                                  "consume_at_most full", "rewind with consumed prefix and unread rest",
                                  "rewind with everything consumed", "rewind at offset 0", "reset", "clear", "repeat",
                                  "set accepted", "set refused", "use/space checked",
-                                 "history: buffer size above 254", "set-up with values at the extremes of size_t" };
+                                 "history: buffer size above 254", "set-up with values at the extremes of size_t",
+                                 "consume that must be refused, without a destination" };
     for (size_t i = 0; i < sizeof req / sizeof req[0]; i++)
         vh_require(req[i]);
 }
